@@ -31,6 +31,10 @@ type e2eAttempt struct {
 	scribble    bool
 	// firstByte: the packet carrying events[i] starts with this byte instead of the OK byte 0x00
 	firstByte map[int]byte
+	// deadlineCtx: the caller's context also carries a (far) deadline - context.WithTimeout under the WithCancel
+	deadlineCtx bool
+	// foreignCtx: the caller's context is of a type of its own (not one of the context package's)
+	foreignCtx bool
 }
 
 type e2eResult struct {
@@ -56,10 +60,40 @@ type e2eResult struct {
 
 const leakFrame = "startDumpFromBinlogPosition.func1"
 
+// ctxFrame: the goroutine context.WithCancel starts to follow a parent that is not one of the context package's own
+// types; it ends when the child is cancelled.  With a foreignCtx parent the library's per-attempt context has one.
+const ctxFrame = "context.(*cancelCtx).propagateCancel"
+
 func libraryGoroutines() int {
 	buf := make([]byte, 1<<20)
 	n := runtime.Stack(buf, true)
-	return strings.Count(string(buf[:n]), leakFrame)
+	return strings.Count(string(buf[:n]), leakFrame) + strings.Count(string(buf[:n]), ctxFrame)
+}
+
+// foreignCtx is a caller's context of a type the context package does not know (a request object, a merged or
+// detached context): cancellable, no deadline, no values.
+type foreignCtx struct {
+	mu   sync.Mutex
+	done chan struct{}
+	err  error
+}
+
+func newForeignCtx() *foreignCtx { return &foreignCtx{done: make(chan struct{})} }
+func (f *foreignCtx) Deadline() (time.Time, bool)   { return time.Time{}, false }
+func (f *foreignCtx) Done() <-chan struct{}         { return f.done }
+func (f *foreignCtx) Value(interface{}) interface{} { return nil }
+func (f *foreignCtx) Err() error {
+	f.mu.Lock()
+	defer f.mu.Unlock()
+	return f.err
+}
+func (f *foreignCtx) cancel() {
+	f.mu.Lock()
+	defer f.mu.Unlock()
+	if f.err == nil {
+		f.err = context.Canceled
+		close(f.done)
+	}
 }
 
 func classifyErr(err error) string {
@@ -150,7 +184,18 @@ func (env *e2eEnv) run(n int, a e2eAttempt, baseline int) (res e2eResult) {
 	}
 	env.mu.Unlock()
 
-	ctx, cancel := context.WithCancel(context.Background())
+	parent := context.Background()
+	if a.deadlineCtx {
+		var pcancel context.CancelFunc
+		parent, pcancel = context.WithTimeout(parent, time.Hour)
+		defer pcancel()
+	}
+	ctx, cancel := context.WithCancel(parent)
+	if a.foreignCtx {
+		cancel() // (the standard one is not used)
+		fc := newForeignCtx()
+		ctx, cancel = fc, fc.cancel
+	}
 	defer cancel()
 	var inHandler int32
 	var returned int32
